@@ -703,8 +703,8 @@ func c07Plan(tier string) (d2Batches, d3Batches, d3Stride, random int) {
 		c07Init()
 	}
 	d2Batches = (len(c07Depth2) + c07Batch - 1) / c07Batch
-	d3Stride = 16
-	random = 400
+	d3Stride = 8
+	random = 2000
 	if tier == "thorough" {
 		d3Stride = 1
 		random = 20000
@@ -840,7 +840,7 @@ func init() {
 		},
 		Run: c07Run,
 		Rule: "expression trees over {+ - * / % ^ == != < <= > >= in and or, unary - and not}: exhaustively all trees of depth <= 2 over 29 leaves (int/float/string/bool literals and variables incl. uint8, negative and zero values, lists, a map, counting calls), " +
-			"all (thorough) or every 16th (quick, offset by seed) depth-3 tree over 5 leaves, plus kind-directed random trees of depth <= 8; each printed with minimal parentheses for the property's precedence table in a canonical and in random layouts (spacing, and/&&, or/||, not/!, !=/<>, quote style), in {{ }} and in {% if %}; " +
+			"all (thorough) or every 8th (quick, offset by seed) depth-3 tree over 5 leaves, plus kind-directed random trees of depth <= 8; each printed with minimal parentheses for the property's precedence table in a canonical and in random layouts (spacing, and/&&, or/||, not/!, !=/<>, quote style), in {{ }} and in {% if %}; " +
 			"an independent evaluator of the tree gives the expected value / error / number of calls of the counting functions (short-circuit). Trees outside the judged fragment (kind mismatches, overflow, NaN) are counted as unjudged. distinct_nontrivial = distinct judged trees.",
 		MinNontriv:  1000,
 		Assumptions: []string{"int^int may print as integer or float (both accepted)", "not on an integer may print 0/1 or False/True", "mixed and/or, chained comparisons, cross-kind equality are always parenthesised or not generated"},
